@@ -9,3 +9,6 @@ for _f in ('protocol_tuple', 'protocol_version', 'version_string'):
     register_driver('util.' + _f + '.', 'pycall.py')
 register_driver('session.ElectrumX.', 'session_handlers.py')
 register_driver('peers.PeerManager.on_add_peer.', 'peers_add_peer.py')
+register_driver('peer.Peer.', 'peers_subscribe.py')
+register_driver('peers.PeerManager._get_recent_good_peers.', 'peers_subscribe.py')
+register_driver('peers.PeerManager.on_peers_subscribe.', 'peers_subscribe.py')
